@@ -16,6 +16,7 @@
   on `last_child` needs the child ordering of the full invariant.
 -/
 import XotModel.Lemmas.FatomAll
+import XotModel.Lemmas.Fcreation
 
 namespace XotModel.Props
 open XotModel
@@ -454,5 +455,63 @@ example : (C06_sample.cloneNode 5).2 = some 6 := by decide
 example : (({ roots := [.node 0 (.element 1) [.node 1 (.comment ['a']) []]], next := 2 } : Forest).cloneNode 0).2 = some 3 := by decide
 example : (Forest.Call.replace 4 5).liveArgs C06_sample := by
   intro x hx; simp [Forest.Call.args] at hx; rcases hx with h | h <;> subst h <;> decide
+
+/-! ### The convenience calls of the public API (`Model/Fcreation.lean`)
+
+  `append_text` / `append_element` / `append_comment` / `append_processing_instruction` /
+  `append_namespace` create their node BEFORE they ask `append` / `append_namespace_node`, so a
+  refusal is not literally "nothing changed": the fresh node exists, parentless, and no handle to
+  it was ever handed out (`COp.refusedState`).  Every node that existed before is where and what
+  it was.  `new_document_with_element` tests `is_element` first: its refusal creates nothing, and
+  after the test it cannot fail.  The node-map wrappers panic exactly on a non-element
+  (documented), the setters through the typed `_mut` accessors never do.  Proved for ALL forests
+  satisfying the invariant and ALL arguments (no liveness hypothesis). -/
+
+theorem C06_creation (f : Forest) (c : Forest.COp) (hi : f.Inv) : Forest.CClauses f c :=
+  Forest.COp.run_clauses hi c
+
+theorem C06_creation_atomic (f : Forest) (c : Forest.COp) (e : XotError) (hi : f.Inv)
+    (h : (c.run f).2 = .err e) : (c.run f).1 = c.refusedState f :=
+  (C06_creation f c hi).atomic e h
+
+/-- What a refusal leaves: the store itself, or the store with one more parentless leaf whose
+    handle is the fresh `f.next`. -/
+theorem C06_creation_refusedState (f : Forest) (c : Forest.COp) :
+    c.refusedState f = f ∨ ∃ v, c.refusedState f = { f with roots := f.roots ++ [.node f.next v []], next := f.next + 1 } := by
+  cases c <;> first | exact Or.inl rfl | exact Or.inr ⟨_, rfl⟩
+
+theorem C06_panic_creation_iff (f : Forest) (c : Forest.COp) (hi : f.Inv) :
+    (c.run f).2 = .panic ↔ c.documentedPanic f = true :=
+  (C06_creation f c hi).panic_iff
+
+theorem C06_panic_creation_unchanged (f : Forest) (c : Forest.COp) (hi : f.Inv) (h : (c.run f).2 = .panic) :
+    (c.run f).1 = f :=
+  (C06_creation f c hi).panic_same h
+
+theorem C06_corrupt_unreachable_creation (f : Forest) (c : Forest.COp) (hi : f.Inv) :
+    (c.run f).1.corrupt = false :=
+  (C06_creation f c hi).notCorrupt
+
+/-- `new_document_with_element` of an element always succeeds and returns the new document node;
+    of anything else it is refused before a node is created. -/
+theorem C06_new_document_with_element (f : Forest) (n : Nat) (hi : f.Inv) :
+    (f.isElement n = true → (f.newDocumentWithElement n).2 = (.ok, f.next)) ∧
+    (f.isElement n = false → f.newDocumentWithElement n = (f, .err .invalidOperation, 0)) := by
+  refine ⟨fun he => ?_, fun he => by simp [Forest.newDocumentWithElement, he]⟩
+  obtain ⟨h1, h2⟩ := Forest.newDocumentWithElement_ok hi.toW he
+  exact Prod.ext h1 h2
+
+/-- Non-vacuity (same forest as above): refusals with and without a node left behind, the
+    documented panic, accepted calls. -/
+example : (C06_sample.appendText 4 ['q']).2 = .err .invalidOperation ∧
+    (C06_sample.appendText 4 ['q']).1.allHandles = C06_sample.allHandles ++ [6] ∧
+    (C06_sample.appendText 4 ['q']).1.isRoot 6 = true ∧
+    (C06_sample.newDocumentWithElement 4).2 = (.err .invalidOperation, 0) ∧
+    (C06_sample.newDocumentWithElement 4).1.next = 6 ∧
+    (C06_sample.newDocumentWithElement 1).2 = (.ok, 6) ∧
+    (C06_sample.appendNamespace 4 2 3).2.1 = .err .invalidOperation ∧
+    (C06_sample.setAttribute 4 9 []).2 = .panic ∧ (C06_sample.setAttribute 1 9 []).2 = .ok ∧
+    (C06_sample.attributeSetValue 3 ['w']).2 = .ok ∧ (C06_sample.attributeSetValue 4 ['w']).2 = .err .invalidOperation ∧
+    (C06_sample.appendText 1 ['q']).2 = .ok := by decide
 
 end XotModel.Props
